@@ -14,7 +14,7 @@ Zones of one pass of the drainage-and-percolation loop (`incBody`):
   * `fillUz`/`fillSf`     filling of the upper free water by the rain increment, surface runoff
   * `ratioOf`/`addroOf`   saturation ratio of the additional impervious area and its runoff
 -/
-namespace OW.RR.SacInv
+namespace OW.RR.Sac
 open OW OW.Kernels.Sacramento
 
 section Mirror
@@ -294,4 +294,4 @@ theorem step_e5 : (step p c st x).2.e5 = (preOf p c st x).e5a * p.adimp := rfl
 
 end Mirror
 
-end OW.RR.SacInv
+end OW.RR.Sac
